@@ -145,6 +145,9 @@ pub struct TableObj {
     slots: Vec<(Value, Value)>,
     index: Option<FxMap<Key, u32>>,
     dead: usize,
+    hint: std::cell::Cell<f64>,
+    /// every slot before this index is dead (keeps `next(t)` on a drained queue cheap)
+    first_live: std::cell::Cell<usize>,
     pub meta: Option<u32>,
 }
 
@@ -200,6 +203,7 @@ impl TableObj {
     fn compact(&mut self) {
         self.slots.retain(|(_, v)| !v.is_nil());
         self.dead = 0;
+        self.first_live.set(0);
         self.rebuild_index();
     }
 
@@ -227,6 +231,9 @@ impl TableObj {
             self.slots[i].1 = v;
             if was_nil && !now_nil {
                 self.dead -= 1;
+                if i < self.first_live.get() {
+                    self.first_live.set(i);
+                }
             } else if !was_nil && now_nil {
                 self.dead += 1;
             }
@@ -260,8 +267,9 @@ impl TableObj {
 
     /// `next`: `Ok(None)` at the end, `Err(())` if the key is not in the table
     pub fn next(&self, k: &Value) -> Result<Option<(Value, Value)>, ()> {
+        let from_start = k.is_nil();
         let mut i = match k {
-            Value::Nil => 0,
+            Value::Nil => self.first_live.get(),
             _ => match self.find(k) {
                 Some(i) => i + 1,
                 None => return Err(()),
@@ -269,32 +277,49 @@ impl TableObj {
         };
         while i < self.slots.len() {
             if !self.slots[i].1.is_nil() {
+                if from_start {
+                    self.first_live.set(i);
+                }
                 return Ok(Some((self.slots[i].0.clone(), self.slots[i].1.clone())));
             }
             i += 1;
         }
+        if from_start {
+            self.first_live.set(self.slots.len());
+        }
         Ok(None)
     }
 
-    /// a border: n with t[n] ~= nil (or n == 0) and t[n+1] == nil
+    /// a border: n with t[n] ~= nil (or n == 0) and t[n+1] == nil.  On a sequence without holes
+    /// the border is unique; the search starts from the previous answer (appending in a loop
+    /// then costs two lookups instead of a logarithmic search).
     pub fn border(&self) -> f64 {
-        if self.get_int(1.0).is_nil() {
-            return 0.0;
+        let hint = self.hint.get();
+        let mut i = 0f64; // t[i] is non-nil (or i == 0)
+        let mut j; // t[j] is nil
+        if hint >= 1.0 {
+            if self.get_int(hint).is_nil() {
+                j = hint;
+                return self.bisect(i, j);
+            }
+            i = hint;
         }
-        let mut i = 1f64;
-        let mut j = 2f64;
-        while !self.get_int(j).is_nil() {
+        let mut step = 1f64;
+        loop {
+            j = i + step;
+            if self.get_int(j).is_nil() {
+                break;
+            }
             i = j;
-            j *= 2.0;
+            step *= 2.0;
             if j > 9.0e15 {
-                // pathological: fall back to a linear scan
-                let mut n = 1f64;
-                while !self.get_int(n + 1.0).is_nil() {
-                    n += 1.0;
-                }
-                return n;
+                return j;
             }
         }
+        self.bisect(i, j)
+    }
+
+    fn bisect(&self, mut i: f64, mut j: f64) -> f64 {
         while j - i > 1.0 {
             let m = ((i + j) / 2.0).floor();
             if self.get_int(m).is_nil() {
@@ -303,6 +328,7 @@ impl TableObj {
                 i = m;
             }
         }
+        self.hint.set(i);
         i
     }
 
